@@ -46,6 +46,13 @@ type c12SimIn struct {
 	MaxPkts  int64    `json:"maxPkts"`  // > 0: built with newBbrSender and this maximum window (datagrams) instead of NewBbrSender's
 	IcwPkts  int64    `json:"icwPkts"`  // > 0 (with maxPkts): initial window in datagrams (default initialCongestionWindowPackets)
 	ReplayMax int     `json:"replayMax"` // > 0: the first replayMax calls are recorded for the whole-trace replay (c12_replay_test.go)
+	AggUs    int64    `json:"aggUs"`    // > 0: acks released on a grid of aggUs microseconds (very fast paths; overrides agg)
+	// loss-free fixed-capacity runs (clean): from thrFrom ms on - i.e. after the first min_rtt expiry (10 s without a new
+	// minimum) and the PROBE_RTT episode it causes - every complete window of thrWin ms must deliver at least thrMinPm
+	// per mille of capacity * thrWin
+	ThrFrom  int64 `json:"thrFrom"`
+	ThrWin   int64 `json:"thrWin"`
+	ThrMinPm int64 `json:"thrMinPm"`
 }
 
 type c12Clock struct{ now *int64 }
@@ -128,6 +135,14 @@ func c12PacerTail(b *bbrSender) []int64 {
 	return []int64{int64(b.GetCongestionWindow()), int64(pr), int64(fb), int64(b.bandwidthForPacer())}
 }
 
+func c12Ms(ts []int64) []int64 {
+	out := make([]int64, len(ts))
+	for i, t := range ts {
+		out[i] = t / int64(time.Millisecond)
+	}
+	return out
+}
+
 func c12Sim(in *c12SimIn, res map[string]any) {
 	rng := rand.New(rand.NewSource(in.Seed))
 	var now int64 = int64(time.Millisecond) // monotime zero is "unset": start at 1 ms
@@ -153,9 +168,25 @@ func c12Sim(in *c12SimIn, res map[string]any) {
 
 	ok, why := true, ""
 	evNo := 0
+	stop := false // a failed clause ends the run ...
 	fail := func(s string) {
 		if ok {
 			ok, why = false, fmt.Sprintf("event %d at %.3f ms: %s", evNo, float64(now)/1e6, s)
+		}
+		stop = true
+	}
+	// ... except the clauses about the long-run behaviour (PROBE_RTT spacing, throughput windows): the run goes on, so that one
+	// replay shows every such clause the history violates (the first occurrence of each)
+	var fails []string
+	softSeen := map[string]bool{}
+	failSoft := func(clause, s string) {
+		msg := fmt.Sprintf("event %d at %.3f ms: %s", evNo, float64(now)/1e6, s)
+		if ok {
+			ok, why = false, msg
+		}
+		if !softSeen[clause] {
+			softSeen[clause] = true
+			fails = append(fails, msg)
 		}
 	}
 
@@ -179,6 +210,14 @@ func c12Sim(in *c12SimIn, res map[string]any) {
 	modesSeen := map[int]bool{}
 	recSeen := map[int]bool{}
 	nSent, nCong, nLossOnly, nSetMds, nGaps, nNonRtx, nLost := 0, 0, 0, 0, 0, 0, 0
+	// fast paths with application idle gaps: the pacer's rate (bytes/s) x the time since the last packet (ns) is an int64
+	// product in Pacer.Budget; idleResumes = [gap ms, rate, floor(rate*gap / 2^63)] at every resume after an idle interval
+	// (odd third component = the product has wrapped to a negative value)
+	nBigClones := 0 // copies of a sampler whose ring has grown beyond 4096 slots (very fast paths): bounded
+	lastAnySent := int64(-1)
+	wasIdle := false
+	var pacerBwMax int64
+	var idleResumes [][3]int64
 	consistent := true
 	var dumps [][]int64
 	var trace [][]int64
@@ -297,6 +336,7 @@ func c12Sim(in *c12SimIn, res map[string]any) {
 		evNo++
 		nSent++
 		lastSentPn = pn
+		lastAnySent = now
 		if firstSent < 0 {
 			firstSent = pn
 		}
@@ -339,11 +379,56 @@ func c12Sim(in *c12SimIn, res map[string]any) {
 		depart := max(now, linkFree) + size*1e9/in.CapBps
 		linkFree = depart
 		at := depart + in.RttMs*ms
-		if in.AggMs > 0 {
+		if in.AggUs > 0 {
+			g := in.AggUs * 1000
+			at = (at/g + 1) * g
+		} else if in.AggMs > 0 {
 			g := in.AggMs * ms
 			at = (at/g + 1) * g
 		}
 		pkt.ackAt = at
+	}
+
+	// structural clause on PROBE_RTT (from theorem C12_mode_transitions: PROBE_RTT is entered only when min_rtt has expired, i.e. its
+	// time stamp is more than minRttExpiry old; it is left refreshing that stamp; the stamp is only ever set to the time of the
+	// event at hand): with a clock that does not go back, PROBE_RTT is not re-entered within minRttExpiry of leaving it - hence at
+	// most 2 entries in any 10 s.  Holds for every event sequence, checked on every sim.
+	var probeRttEntries []int64
+	lastProbeRttExit := int64(-1)
+	modeEdge := func(before, after int) {
+		if before != bbrModeProbeRtt && after == bbrModeProbeRtt {
+			probeRttEntries = append(probeRttEntries, now)
+			if lastProbeRttExit >= 0 && now-lastProbeRttExit <= int64(minRttExpiry) {
+				failSoft("probe-rtt-spacing", fmt.Sprintf("PROBE_RTT re-entered %.1f ms after it was left (entry no. %d of the connection): min_rtt expires only %d ms after it was last refreshed, and leaving PROBE_RTT refreshes it",
+					float64(now-lastProbeRttExit)/1e6, len(probeRttEntries), minRttExpiry.Milliseconds()))
+			}
+			if n := len(probeRttEntries); n >= 3 && now-probeRttEntries[n-3] < 10*int64(time.Second) {
+				failSoft("probe-rtt-count", fmt.Sprintf("PROBE_RTT entered %d times within %.1f ms (at most 2 entries per 10 s)", 3, float64(now-probeRttEntries[n-3])/1e6))
+			}
+		}
+		if before == bbrModeProbeRtt && after != bbrModeProbeRtt {
+			lastProbeRttExit = now
+		}
+	}
+	// throughput windows of a loss-free fixed-capacity run
+	var winBytes []int64
+	var winRatio []float64
+	judged := int64(0)
+	judgeWindows := func(upTo int64) {
+		for in.Clean && in.ThrWin > 0 && !stop && upTo >= (in.ThrFrom+(judged+1)*in.ThrWin)*ms {
+			var got int64
+			if judged < int64(len(winBytes)) {
+				got = winBytes[judged]
+			}
+			r := float64(got) / (float64(in.CapBps) * float64(in.ThrWin) / 1000)
+			winRatio = append(winRatio, math.Round(r*10000)/10000)
+			if r*1000 < float64(in.ThrMinPm) {
+				failSoft("throughput-window", fmt.Sprintf("loss-free path of fixed capacity %d B/s, RTT %d ms, profile %s: the window [%d ms, %d ms) delivered %.1f%% of capacity (required %.1f%%); mode %d, GetCongestionWindow %d = %d datagrams, %d PROBE_RTT entries so far",
+					in.CapBps, in.RttMs, in.Profile, in.ThrFrom+judged*in.ThrWin, in.ThrFrom+(judged+1)*in.ThrWin, 100*r, float64(in.ThrMinPm)/10,
+					b.mode, b.GetCongestionWindow(), int64(b.GetCongestionWindow())/int64(b.maxDatagramSize), len(probeRttEntries)))
+			}
+			judged++
+		}
 	}
 
 	congEvent := func(acked, lost []*c12Pkt) {
@@ -397,9 +482,16 @@ func c12Sim(in *c12SimIn, res map[string]any) {
 		before := c12Fields(b)
 		bestBefore := b.maxBandwidth.GetBest()
 		totA0, totL0 := b.sampler.TotalBytesAcked(), b.sampler.TotalBytesLost()
-		clone := c12CloneSampler(b.sampler)
-		if congestion.ByteCount(prior) < b.getTargetCongestionWindow(1) {
-			clone.OnAppLimited()
+		var clone *bandwidthSampler // (only needed for a dumped event; copying the rings on every event is what a fast path cannot afford)
+		bigRing := len(b.sampler.connectionStateMap.entries.ring) > 4096
+		if len(dumps) < in.DumpMax+8 && (!bigRing || nBigClones < 48) {
+			if bigRing {
+				nBigClones++
+			}
+			clone = c12CloneSampler(b.sampler)
+			if congestion.ByteCount(prior) < b.getTargetCongestionWindow(1) {
+				clone.OnAppLimited()
+			}
 		}
 		p, msg := vCatch(func() {
 			b.OnCongestionEventEx(congestion.ByteCount(prior), monotime.Time(now), ai, li)
@@ -431,7 +523,8 @@ func c12Sim(in *c12SimIn, res map[string]any) {
 		after := c12Fields(b)
 		interesting := before[8] != after[8] || before[9] != after[9] || before[10] != after[10] || len(li) > 0
 		verdict()
-		if wantDump(interesting, bindingNow(), 1) || (!ok && len(dumps) < in.DumpMax+8) {
+		modeEdge(int(before[8]), int(after[8]))
+		if clone != nil && (wantDump(interesting, bindingNow(), 1) || (!ok && len(dumps) < in.DumpMax+8)) {
 			sample := clone.OnCongestionEvent(monotime.Time(now), ai, li, bestBefore, infBandwidth, b.roundTripCount)
 			la := int64(-1)
 			if len(ai) != 0 {
@@ -460,7 +553,8 @@ func c12Sim(in *c12SimIn, res map[string]any) {
 
 	end := in.DurMs * ms
 	stalledSince := int64(-1)
-	for now < end && ok {
+	for now < end && !stop {
+		judgeWindows(now)
 		// 1. MTU raise
 		if mtuI < len(in.Mtu) && now >= in.Mtu[mtuI][0]*ms {
 			s := in.Mtu[mtuI][1]
@@ -504,6 +598,13 @@ func c12Sim(in *c12SimIn, res map[string]any) {
 				if now >= warm {
 					deliveredAfterWarm += p.size
 				}
+				if in.ThrWin > 0 && now >= in.ThrFrom*ms {
+					k := (now - in.ThrFrom*ms) / (in.ThrWin * ms)
+					for int64(len(winBytes)) <= k {
+						winBytes = append(winBytes, 0)
+					}
+					winBytes[k] += p.size
+				}
 			}
 			if top.pn > largestAcked {
 				largestAcked, largestAckedIdx = top.pn, top.idx
@@ -546,6 +647,15 @@ func c12Sim(in *c12SimIn, res map[string]any) {
 		idle := inIdle(now)
 		sentNow := false
 		if !idle {
+			bw := int64(b.bandwidthForPacer())
+			pacerBwMax = max(pacerBwMax, bw)
+			if wasIdle && lastAnySent >= 0 {
+				idleResumes = append(idleResumes, [3]int64{(now - lastAnySent) / ms, bw,
+					int64(math.Floor(float64(bw) * float64(now-lastAnySent) / 9.223372036854775808e18))})
+			}
+		}
+		wasIdle = idle
+		if !idle {
 			for n := 0; n < 64 && b.CanSend(congestion.ByteCount(bytesInFlight)) && b.HasPacingBudget(monotime.Time(now)); n++ {
 				if rng.Int63n(1000) < in.NonRtxPm {
 					sendPacket(40+rng.Int63n(40), false)
@@ -583,7 +693,14 @@ func c12Sim(in *c12SimIn, res map[string]any) {
 			t := int64(b.TimeUntilSend(congestion.ByteCount(bytesInFlight)))
 			if t <= now {
 				if !sentNow && !b.HasPacingBudget(monotime.Time(now)) {
-					fail("pacer deadlock: TimeUntilSend is not in the future but HasPacingBudget is false")
+					when := fmt.Sprintf("names an instant %d ns in the past", now-t)
+					if t == 0 {
+						when = "says a packet can be sent at once"
+					}
+					fail(fmt.Sprintf("pacer deadlock: the window is open (%d bytes in flight, GetCongestionWindow %d), TimeUntilSend %s, yet HasPacingBudget(now) is false: "+
+						"the send loop re-arms at once and never sends; pacer rate %d B/s, %d ns since the last packet (rate x elapsed = %.3f x 2^63)",
+						bytesInFlight, b.GetCongestionWindow(), when, b.bandwidthForPacer(), now-lastAnySent,
+						float64(b.bandwidthForPacer())*float64(now-lastAnySent)/9.223372036854775808e18))
 				}
 				t = now + 1
 			} else if !b.HasPacingBudget(monotime.Time(t)) {
@@ -620,10 +737,16 @@ func c12Sim(in *c12SimIn, res map[string]any) {
 		now = next
 	}
 
+	if !stop {
+		judgeWindows(min(now, end))
+	}
 	if !consistent {
 		ok, why = false, "harness bug: generated trace is not QUIC-consistent ("+why+")"
 	}
 	res["ok"], res["why"] = ok, why
+	if len(fails) > 0 {
+		res["fails"] = fails
+	}
 	res["agg"] = agg
 	res["dumps"] = dumps
 	res["trace"] = trace
@@ -660,5 +783,8 @@ func c12Sim(in *c12SimIn, res map[string]any) {
 		"modes": modes, "recovery": recs, "delivered": delivered, "throughputRatio": thr, "maxSlots": maxSlots,
 		"finalCwnd": int64(b.GetCongestionWindow()), "events": evNo,
 		"floorEvents": nFloorEv, "capEvents": nCapEv, "bindDumps": nBind,
+		"probeRttEntriesMs": c12Ms(probeRttEntries[:min(len(probeRttEntries), 12)]), "probeRttEntries": len(probeRttEntries),
+		"windowRatios": winRatio, "simulatedMs": now / ms,
+		"pacerBwMax": pacerBwMax, "idleResumes": idleResumes,
 	}
 }
